@@ -66,6 +66,17 @@ def judge(data, nl):
     if keep != spec.split_keep(data, nl):
         return 'differs-from-reference', 'reference split differs'
 
+    # the result belongs to the caller: scribbling over it must not change
+    # what a later call with the same arguments returns
+    want_keep, want_bare = list(keep), list(bare)
+    keep[:] = [b'scribble'] * (len(keep) + 1)
+    bare[:] = [b'scribble']
+
+    if split(data, nl, keep_ends=True) != want_keep or \
+            split(data, nl, keep_ends=False) != want_bare:
+        return ('result-shared-between-calls',
+                'mutating a returned list changed a later result')
+
     return None
 
 
@@ -131,6 +142,66 @@ def run_chunk(chunk, st):
     st.bulk(evals, nontrivial, sample=sample)
 
 
+# -- block boundaries -----------------------------------------------------
+
+BLOCKS = (96, 1024, 4096, 8192, 65536, 131072)
+
+
+def boundary_chunks(tier, seed):
+    return [('block', b) for b in BLOCKS]
+
+
+def run_boundary_chunk(chunk, st):
+    """A newline straddling every offset around a power-of-two block
+    boundary, in data larger than the block."""
+    _, block = chunk
+    evals = 0
+    sample = None
+
+    for nl in NEWLINES:
+        for k in (1, 2):
+            for off in range(-len(nl) - 1, 2):
+                pos = k * block + off
+
+                for tail in (b'tail', b'', nl, b'x' + nl):
+                    data = b'a' * pos + nl + tail
+                    # and one more newline early, so there are >= 2 lines
+                    data2 = b'q' + nl + data[len(nl) + 1:] \
+                        if pos > len(nl) + 1 else data
+
+                    for d in (data, data2):
+                        evals += 1
+                        res = judge(d, nl)
+
+                        if sample is None:
+                            sample = {'block': block, 'newline': nl,
+                                      'newline_offset': pos,
+                                      'length': len(d)}
+
+                        if res is not None:
+                            st.violation(res[0], '%s; %d bytes, newline %r '
+                                         'at offset %d (block %d)'
+                                         % (res[1][:200], len(d), nl, pos,
+                                            block),
+                                         {'boundary': [block, k, off],
+                                          'newline': nl, 'tail': tail,
+                                          'variant': 0 if d is data else 1})
+
+    st.bulk(evals, evals, sample=sample)
+
+
+def run_boundary_case(case, st):
+    block, k, off = case['boundary']
+    nl = case['newline']
+    pos = k * block + off
+    data = b'a' * pos + nl + case['tail']
+
+    if case.get('variant') and pos > len(nl) + 1:
+        data = b'q' + nl + data[len(nl) + 1:]
+
+    run_case([data, nl], st)
+
+
 # -- random longer strings ---------------------------------------------
 
 def strategy():
@@ -159,6 +230,15 @@ def checks():
                  'LE/BE encodings); non-trivial = the string contains the '
                  'newline and is longer than it; enumerated, hence distinct',
             bound={'quick': 'L = 7', 'thorough': 'L = 9'}),
+        EnumCheck(
+            'block-boundaries', boundary_chunks, run_boundary_chunk,
+            run_case=run_boundary_case,
+            rule='data larger than a block with a newline placed at every '
+                 'offset around k x block (block in 96, 1 KiB, 4 KiB, 8 KiB, '
+                 '64 KiB, 128 KiB; k = 1, 2) for all 10 newline sequences '
+                 'and 4 tails; every case has >= 1 newline (non-trivial)',
+            bound={'quick': '6 block sizes x 2 multiples x all straddling '
+                            'offsets', 'thorough': 'same'}),
         HypCheck(
             'random', strategy, run_case,
             budget={'quick': (8, 400), 'thorough': (16, 20000)},
